@@ -1229,3 +1229,295 @@ Proof.
   intros Hne. unfold table_frame. rewrite !map_map. cbn [fst snd].
   rewrite (frame_of_columns_rect (fun c r => row_cell r c) cs rows Hne). rewrite map_id. reflexivity.
 Qed.
+
+(* ================================================================== refinement for ALL histories, raising reporters included *)
+(* how a collect ends, decided from the world and the validated flag alone *)
+Inductive ckind := KInvalid | KModel (j : nat) | KAgent | KType | KOk.
+
+Fixpoint first_raise (w : world) (rs : list (Z * mrep)) : option nat :=
+  match rs with
+  | [] => None
+  | (_, r) :: t => match eval_mrep w r with
+                   | Err _ => Some 0%nat
+                   | Ok _ => match first_raise w t with Some j => Some (S j) | None => None end
+                   end
+  end.
+
+Definition moment_kind (cfg : config) (validated : bool) (w : world) : ckind :=
+  if negb (is_nil (c_mreps cfg)) && negb validated && negb (res_ok (validate_all w (c_mreps cfg))) then KInvalid
+  else match first_raise w (c_mreps cfg) with
+       | Some j => KModel j
+       | None =>
+           if negb (is_nil (c_areps cfg)) && negb (res_ok (record_agents w (c_areps cfg) (w_agents w))) then KAgent
+           else if negb (is_nil (c_treps cfg)) && negb (res_ok (snd (collect_types w (c_treps cfg) []))) then KType
+           else KOk
+       end.
+
+(* the moments of a history, the failed ones included, each with the way it ended *)
+Fixpoint events (cfg : config) (w : world) (validated : bool) (ops : list op) : list (world * ckind) :=
+  match ops with
+  | [] => []
+  | o :: t => match o with
+              | Collect => (w, moment_kind cfg validated w)
+                           :: events cfg w (validated || negb (is_nil (c_mreps cfg))) t
+              | _ => events cfg (fst (world_step w o)) validated t
+              end
+  end.
+
+Definition k_reached (cfg : config) (n : Z) (k : ckind) : bool :=   (* did reporter n get its value at such a moment *)
+  match k with KInvalid => false | KModel j => amem n (firstn j (c_mreps cfg)) | _ => true end.
+Definition k_counts (k : ckind) : bool := match k with KAgent | KType | KOk => true | _ => false end.
+Definition k_records (k : ckind) : bool := match k with KType | KOk => true | _ => false end.
+
+Definition rows_at (cfg : config) (w : world) : list row :=
+  match record_agents w (c_areps cfg) (w_agents w) with Ok rows => rows | Err _ => [] end.
+Definition inner_at (cfg : config) (w : world) : list (Z * list row) := fst (collect_types w (c_treps cfg) []).
+
+Definition mvars_g (cfg : config) (evs : list (world * ckind)) : list (Z * list snap) :=
+  map (fun p => (fst p, map (fun ev => mval_at (fst ev) (snd p))
+                            (filter (fun ev => k_reached cfg (fst p) (snd ev)) evs))) (c_mreps cfg).
+Definition csteps_g (evs : list (world * ckind)) : list Z :=
+  map (fun ev => w_steps (fst ev)) (filter (fun ev => k_counts (snd ev)) evs).
+Definition arecs_g (cfg : config) (evs : list (world * ckind)) : list (Z * list row) :=
+  if is_nil (c_areps cfg) then []
+  else fold_left (fun acc ev => aset (w_steps (fst ev)) (rows_at cfg (fst ev)) acc)
+                 (filter (fun ev => k_records (snd ev)) evs) [].
+Definition trecs_g (cfg : config) (evs : list (world * ckind)) : list (Z * list (Z * list row)) :=
+  if is_nil (c_treps cfg) then []
+  else fold_left (fun acc ev => aset (w_steps (fst ev)) (inner_at cfg (fst ev)) acc)
+                 (filter (fun ev => k_records (snd ev)) evs) [].
+
+Record refines_g (cfg : config) (evs : list (world * ckind)) (acc : list (Z * list (Z * cellv))) (d : dc) : Prop := {
+  g_mvars : d_mvars d = mvars_g cfg evs;
+  g_arecs : d_arecs d = arecs_g cfg evs;
+  g_trecs : d_trecs d = trecs_g cfg evs;
+  g_tables : d_tables d = tables_of cfg acc;
+  g_csteps : d_csteps d = csteps_g evs }.
+
+Lemma collect_mvars_first_raise w rs : NoDup (map fst rs) -> forall mv,
+  match first_raise w rs with
+  | Some j => exists e, collect_mvars w rs mv = (mvars_prefix w rs j mv, Err e)
+  | None => collect_mvars w rs mv = (mvars_prefix w rs (length rs) mv, Ok tt)
+  end.
+Proof.
+  intros Hnd mv. destruct (collect_mvars_spec w rs Hnd mv) as [j [Hj [Hf [Hok Hs]]]].
+  assert (forall l k, (forall p, In p (firstn k l) -> res_ok (eval_mrep w (snd p)) = true) ->
+          (k <= length l)%nat ->
+          match first_raise w l with Some j' => (k <= j')%nat | None => True end) as Hge.
+  { induction l as [|[n r] t IH]; intros k Hall Hk; simpl; [exact I|].
+    destruct k as [|k']; [destruct (eval_mrep w r); [destruct (first_raise w t)|]; lia|].
+    simpl in Hall. pose proof (Hall (n, r) (or_introl eq_refl)) as Hr. simpl in Hr.
+    destruct (eval_mrep w r); [|discriminate].
+    assert (match first_raise w t with Some j' => (k' <= j')%nat | None => True end) as H'.
+    { apply IH; [intros p Hp; apply Hall; right; exact Hp|simpl in Hk; lia]. }
+    destruct (first_raise w t); [lia|exact I]. }
+  assert (forall l k p e, nth_error l k = Some p -> eval_mrep w (snd p) = Err e ->
+          match first_raise w l with Some j' => (j' <= k)%nat | None => False end) as Hle.
+  { induction l as [|[n r] t IH]; intros k p e Hn He; [destruct k; discriminate|]. simpl.
+    destruct k as [|k']; simpl in Hn.
+    - inversion Hn. subst. simpl in He. rewrite He. lia.
+    - destruct (eval_mrep w r); [|lia]. specialize (IH k' p e Hn He). destruct (first_raise w t); [lia|exact IH]. }
+  specialize (Hge rs j Hok Hj).
+  destruct (collect_mvars w rs mv) as [mv' res] eqn:Ec. simpl in Hf, Hs. subst mv'.
+  destruct res as [[]|e].
+  - subst j. destruct (first_raise w rs) as [j'|] eqn:Ef; [|reflexivity].
+    exfalso. clear -Ef Hge. revert j' Ef Hge. induction rs as [|[n r] t IH]; intros j' Ef Hge; [discriminate|].
+    simpl in Ef. destruct (eval_mrep w r); [|inversion Ef; subst; simpl in Hge; lia].
+    destruct (first_raise w t) as [j2|] eqn:E2; [|discriminate]. inversion Ef. subst. simpl in Hge.
+    apply (IH j2 eq_refl). lia.
+  - destruct Hs as [p [Hp He]]. specialize (Hle rs j p e Hp He).
+    destruct (first_raise w rs) as [j'|]; [|contradiction]. assert (j' = j) as -> by lia. exists e. reflexivity.
+Qed.
+
+Lemma mvars_g_snoc cfg evs w k j :
+  NoDup (map fst (c_mreps cfg)) ->
+  (forall n r, In (n, r) (c_mreps cfg) -> k_reached cfg n k = amem n (firstn j (c_mreps cfg))) ->
+  mvars_prefix w (c_mreps cfg) j (mvars_g cfg evs) = mvars_g cfg (evs ++ [(w, k)]).
+Proof.
+  intros Hnd Hk. unfold mvars_prefix, mvars_g. rewrite map_map. apply map_ext_in. intros [n r] Hin. simpl.
+  rewrite filter_app. simpl. rewrite (Hk n r Hin). unfold amem.
+  destruct (aget n (firstn j (c_mreps cfg))) as [r'|] eqn:E.
+  - assert (r' = r) as ->.
+    { apply aget_In in E. apply firstn_In in E. pose proof (In_aget_NoDup n r' _ Hnd E) as H1.
+      rewrite (In_aget_NoDup n r _ Hnd Hin) in H1. inversion H1. reflexivity. }
+    rewrite map_app. reflexivity.
+  - rewrite app_nil_r. reflexivity.
+Qed.
+
+Lemma mvars_g_skip cfg evs w k : (forall n, k_reached cfg n k = false) -> mvars_g cfg (evs ++ [(w, k)]) = mvars_g cfg evs.
+Proof.
+  intros Hk. unfold mvars_g. apply map_ext. intros [n r]. simpl. rewrite filter_app. simpl. rewrite Hk, app_nil_r. reflexivity.
+Qed.
+
+Lemma csteps_g_snoc evs w k : csteps_g (evs ++ [(w, k)]) = csteps_g evs ++ (if k_counts k then [w_steps w] else []).
+Proof. unfold csteps_g. rewrite filter_app, map_app. simpl. destruct (k_counts k); reflexivity. Qed.
+Lemma arecs_g_snoc cfg evs w k :
+  arecs_g cfg (evs ++ [(w, k)]) =
+  if k_records k && negb (is_nil (c_areps cfg)) then aset (w_steps w) (rows_at cfg w) (arecs_g cfg evs) else arecs_g cfg evs.
+Proof.
+  unfold arecs_g. rewrite filter_app. simpl. destruct (is_nil (c_areps cfg)); [rewrite andb_false_r; reflexivity|].
+  destruct (k_records k); simpl; [rewrite fold_left_app; reflexivity|rewrite app_nil_r; reflexivity].
+Qed.
+Lemma trecs_g_snoc cfg evs w k :
+  trecs_g cfg (evs ++ [(w, k)]) =
+  if k_records k && negb (is_nil (c_treps cfg)) then aset (w_steps w) (inner_at cfg w) (trecs_g cfg evs) else trecs_g cfg evs.
+Proof.
+  unfold trecs_g. rewrite filter_app. simpl. destruct (is_nil (c_treps cfg)); [rewrite andb_false_r; reflexivity|].
+  destruct (k_records k); simpl; [rewrite fold_left_app; reflexivity|rewrite app_nil_r; reflexivity].
+Qed.
+
+(* stages 2 and 3 on a collector whose model vars are done *)
+Lemma stage23_general cfg w d1 evs acc mv :
+  d_mvars d1 = mv -> d_arecs d1 = arecs_g cfg evs -> d_trecs d1 = trecs_g cfg evs ->
+  d_tables d1 = tables_of cfg acc -> d_csteps d1 = csteps_g evs ->
+  let k := if negb (is_nil (c_areps cfg)) && negb (res_ok (record_agents w (c_areps cfg) (w_agents w))) then KAgent
+           else if negb (is_nil (c_treps cfg)) && negb (res_ok (snd (collect_types w (c_treps cfg) []))) then KType
+           else KOk in
+  let d' := fst (match collect_stage2 cfg w (with_csteps d1 (d_csteps d1 ++ [w_steps w])) with
+                 | (d2, Err e) => (d2, Err e)
+                 | (d2, Ok _) => collect_stage3 cfg w d2
+                 end) in
+  d_mvars d' = mv /\ d_arecs d' = arecs_g cfg (evs ++ [(w, k)]) /\ d_trecs d' = trecs_g cfg (evs ++ [(w, k)]) /\
+  d_tables d' = tables_of cfg acc /\ d_csteps d' = csteps_g (evs ++ [(w, k)]) /\ d_validated d' = d_validated d1.
+Proof.
+  intros Hm Ha Ht Htb Hc. cbv zeta. rewrite arecs_g_snoc, trecs_g_snoc, csteps_g_snoc.
+  unfold collect_stage2, collect_stage3, rows_at, inner_at.
+  destruct (is_nil (c_areps cfg)) eqn:Ea; simpl.
+  - destruct (is_nil (c_treps cfg)) eqn:Et; simpl.
+    + rewrite Hc. repeat split; assumption.
+    + destruct (collect_types w (c_treps cfg) []) as [inner r] eqn:Ect. simpl.
+      destruct r as [[]|e]; simpl; rewrite Hc, Ht; repeat split; assumption.
+  - destruct (record_agents w (c_areps cfg) (w_agents w)) as [rows|e] eqn:Er; simpl.
+    + destruct (is_nil (c_treps cfg)) eqn:Et; simpl.
+      * rewrite Hc, Ha. repeat split; assumption.
+      * destruct (collect_types w (c_treps cfg) []) as [inner r] eqn:Ect. simpl.
+        destruct r as [[]|e]; simpl; rewrite Hc, Ha, Ht; repeat split; assumption.
+    + rewrite Hc. repeat split; assumption.
+Qed.
+
+Definition kind23 (cfg : config) (w : world) : ckind :=
+  if negb (is_nil (c_areps cfg)) && negb (res_ok (record_agents w (c_areps cfg) (w_agents w))) then KAgent
+  else if negb (is_nil (c_treps cfg)) && negb (res_ok (snd (collect_types w (c_treps cfg) []))) then KType
+  else KOk.
+
+Lemma kind23_reached cfg w n : k_reached cfg n (kind23 cfg w) = true.
+Proof.
+  unfold kind23. destruct (negb (is_nil (c_areps cfg)) && _); [reflexivity|].
+  destruct (negb (is_nil (c_treps cfg)) && _); reflexivity.
+Qed.
+
+(* everything after a passed (or already done) validation *)
+Lemma collect_after_validation cfg w d evs acc :
+  NoDup (map fst (c_mreps cfg)) -> refines_g cfg evs acc d -> is_nil (c_mreps cfg) = false ->
+  (if d_validated d then Ok tt else validate_all w (c_mreps cfg)) = Ok tt ->
+  let k := match first_raise w (c_mreps cfg) with Some j => KModel j | None => kind23 cfg w end in
+  refines_g cfg (evs ++ [(w, k)]) acc (fst (collect cfg w d)) /\ d_validated (fst (collect cfg w d)) = true.
+Proof.
+  intros Hnd [H1 H2 H3 H4 H5] En Hv. cbv zeta. unfold collect, collect_stage1. rewrite En, Hv.
+  pose proof (collect_mvars_first_raise w (c_mreps cfg) Hnd (d_mvars (with_validated d))) as Hc.
+  destruct (first_raise w (c_mreps cfg)) as [j|] eqn:Ef.
+  - destruct Hc as [e Hc]. rewrite Hc. simpl. split; [|reflexivity].
+    constructor; simpl; rewrite ?arecs_g_snoc, ?trecs_g_snoc, ?csteps_g_snoc; simpl; rewrite ?app_nil_r; try assumption.
+    rewrite H1. apply mvars_g_snoc; [exact Hnd|reflexivity].
+  - rewrite Hc. cbv beta iota zeta.
+    pose proof (stage23_general cfg w (with_mvars (with_validated d) (mvars_prefix w (c_mreps cfg) (length (c_mreps cfg)) (d_mvars (with_validated d))))
+                  evs acc _ eq_refl H2 H3 H4 H5) as S. cbv zeta in S. fold (kind23 cfg w) in S.
+    destruct S as [S1 [S2 [S3 [S4 [S5 S6]]]]]. split; [|rewrite S6; reflexivity].
+    constructor; try assumption. rewrite S1. simpl d_mvars. rewrite H1.
+    apply mvars_g_snoc; [exact Hnd|]. intros n r Hin. rewrite kind23_reached, firstn_all. unfold amem.
+    rewrite (In_aget_NoDup n r _ Hnd Hin). reflexivity.
+Qed.
+
+Lemma collect_general cfg w d evs acc :
+  NoDup (map fst (c_mreps cfg)) -> refines_g cfg evs acc d ->
+  refines_g cfg (evs ++ [(w, moment_kind cfg (d_validated d) w)]) acc (fst (collect cfg w d)) /\
+  d_validated (fst (collect cfg w d)) = d_validated d || negb (is_nil (c_mreps cfg)).
+Proof.
+  intros Hnd Hr. unfold moment_kind. fold (kind23 cfg w).
+  destruct (is_nil (c_mreps cfg)) eqn:En.
+  - (* no model reporters *)
+    destruct Hr as [H1 H2 H3 H4 H5].
+    assert (c_mreps cfg = []) as Em by (apply is_nil_true; exact En). simpl. rewrite Em. simpl first_raise.
+    unfold collect, collect_stage1. rewrite En. cbv beta iota zeta.
+    pose proof (stage23_general cfg w d evs acc (d_mvars d) eq_refl H2 H3 H4 H5) as S. cbv zeta in S. fold (kind23 cfg w) in S.
+    destruct S as [S1 [S2 [S3 [S4 [S5 S6]]]]]. split; [|rewrite S6, orb_false_r; reflexivity].
+    constructor; try assumption. rewrite S1, H1. unfold mvars_g. rewrite Em. reflexivity.
+  - simpl negb. rewrite andb_true_l, orb_true_r.
+    destruct (d_validated d) eqn:Ev; simpl negb; rewrite ?andb_false_l, ?andb_true_l.
+    + apply (collect_after_validation cfg w d evs acc Hnd Hr En). rewrite Ev. reflexivity.
+    + destruct (validate_all w (c_mreps cfg)) as [[]|e] eqn:Eva; simpl.
+      * apply (collect_after_validation cfg w d evs acc Hnd Hr En). rewrite Ev. exact Eva.
+      * (* rejected by the validation: only the flag is set *)
+        destruct Hr as [H1 H2 H3 H4 H5].
+        rewrite (collect_invalid cfg w d e En Ev Eva). simpl. split; [|reflexivity].
+        constructor; simpl; rewrite ?arecs_g_snoc, ?trecs_g_snoc, ?csteps_g_snoc; simpl; rewrite ?app_nil_r; try assumption.
+        rewrite H1. symmetry. apply mvars_g_skip. reflexivity.
+Qed.
+
+Lemma refines_g_init cfg : refines_g cfg [] [] (dc_init cfg).
+Proof.
+  constructor; simpl; try reflexivity.
+  - unfold arecs_g. destruct (is_nil (c_areps cfg)); reflexivity.
+  - unfold trecs_g. destruct (is_nil (c_treps cfg)); reflexivity.
+Qed.
+
+Lemma add_row_refines_g cfg d evs acc t r ign :
+  NoDup (map fst (c_tables cfg)) -> refines_g cfg evs acc d ->
+  refines_g cfg evs (acc ++ (if row_ok cfg t r ign then [(t, r)] else [])) (fst (add_row d t r ign)) /\
+  d_validated (fst (add_row d t r ign)) = d_validated d.
+Proof.
+  intros Hnd [H1 H2 H3 H4 H5].
+  (* re-use the lemma about refines: only the tables field matters *)
+  assert (refines cfg [] acc {| d_validated := d_validated d; d_mvars := mvars_of cfg []; d_arecs := arecs_of cfg [];
+                                d_trecs := trecs_of cfg []; d_tables := d_tables d; d_csteps := [] |}) as Hr0.
+  { constructor; simpl; try reflexivity. exact H4. }
+  destruct (add_row_refines cfg _ [] acc t r ign Hnd Hr0) as [d0 [res0 [E0 [[_ _ _ T0 _] _]]]].
+  pose proof (add_row_records d t r ign) as [A1 A2].
+  unfold add_row in *. simpl in E0.
+  destruct (aget t (d_tables d)) as [cols|].
+  - destruct (negb ign && existsb (fun c => negb (amem (fst c) r)) cols).
+    + inversion E0. subst. simpl in *. split; [constructor; assumption|reflexivity].
+    + inversion E0. subst. simpl in *. split; [constructor; assumption|reflexivity].
+  - inversion E0. subst. simpl in *. split; [constructor; assumption|reflexivity].
+Qed.
+
+Lemma events_world cfg w v o t : is_world_op o = true ->
+  events cfg w v (o :: t) = events cfg (fst (world_step w o)) v t.
+Proof. intros H. destruct o; try discriminate; reflexivity. Qed.
+
+Lemma exec_refines_g cfg :
+  NoDup (map fst (c_mreps cfg)) -> NoDup (map fst (c_tables cfg)) ->
+  forall ops s evs acc,
+  refines_g cfg evs acc (s_d s) ->
+  refines_g cfg (evs ++ events cfg (s_w s) (d_validated (s_d s)) ops) (acc ++ accepted cfg ops) (s_d (exec cfg s ops)).
+Proof.
+  intros Hndm Hndt. induction ops as [|o t IH]; intros s evs acc Href.
+  - simpl. rewrite !app_nil_r. exact Href.
+  - destruct (is_world_op o) eqn:Ew.
+    + rewrite events_world by exact Ew. rewrite accepted_world by exact Ew.
+      simpl exec. rewrite step_world by exact Ew.
+      apply (IH {| s_w := fst (world_step (s_w s) o); s_d := s_d s |} evs acc). exact Href.
+    + destruct o; try discriminate.
+      * (* Collect *)
+        simpl events. simpl accepted. simpl exec. unfold step.
+        destruct (collect_general cfg (s_w s) (s_d s) evs acc Hndm Href) as [Rd Vd].
+        destruct (collect cfg (s_w s) (s_d s)) as [d' r] eqn:Ec. simpl fst in *.
+        specialize (IH {| s_w := s_w s; s_d := d' |} _ acc Rd). simpl in IH.
+        rewrite <- app_assoc in IH. simpl in IH. rewrite Vd in IH. exact IH.
+      * (* AddRow *)
+        simpl events. simpl exec. unfold step.
+        destruct (add_row_refines_g cfg (s_d s) evs acc t0 r ignore_missing Hndt Href) as [Rd Vd].
+        destruct (add_row (s_d s) t0 r ignore_missing) as [d' res] eqn:Ea. simpl fst in *.
+        specialize (IH {| s_w := s_w s; s_d := d' |} evs _ Rd). simpl in IH.
+        rewrite Vd in IH. rewrite <- app_assoc in IH. simpl accepted.
+        destruct (row_ok cfg t0 r ignore_missing); exact IH.
+      * (* Frames *)
+        simpl events. simpl exec. simpl accepted. apply (IH s evs acc). exact Href.
+Qed.
+
+Theorem refinement_general cfg ops :
+  NoDup (map fst (c_mreps cfg)) -> NoDup (map fst (c_tables cfg)) ->
+  refines_g cfg (events cfg world_init false ops) (accepted cfg ops) (s_d (exec cfg (state_init cfg) ops)).
+Proof.
+  intros H1 H2. exact (exec_refines_g cfg H1 H2 ops (state_init cfg) [] [] (refines_g_init cfg)).
+Qed.
